@@ -14,12 +14,17 @@
 (*                                                                         *)
 (* F is the set of enabled DEVIATION RULES: places where the planner was   *)
 (* found (by reading it) to do something else than the straightforward     *)
-(* reading of the design.  PlanEval(q, db, AllFlags) is the code as        *)
-(* written; PlanEval(q, db, {}) is the design (bit per distinct term,      *)
-(* groupBitOr per span, boolean tree in HAVING, INTERSECT / UNION ALL of   *)
-(* selectors, two limit planners).  TLC checks                             *)
+(* reading of the design.  AllFlags is the vocabulary of rules (every rule *)
+(* ever found on the tree); MC_TraceQL!CodeFlags, set from                 *)
+(* tools/props/c11.py CODE_DEVIATIONS, lists the rules the tree has NOW:   *)
+(* PlanEval(q, db, CodeFlags) is the code as written; PlanEval(q, db, {})  *)
+(* is the design (bit per distinct term, WHERE pre-filter of all terms,    *)
+(* groupBitOr per span, boolean tree with && above || in HAVING, selectors *)
+(* combined over the union of their span rows, two limit planners).        *)
+(* Repaired since the pinned tree: where, emptywhere, prec, intersect,     *)
+(* chain3, drop3, tagsv2, attrless_le.  TLC checks                         *)
 (*    Conforms(PlanEval(q, db, {}), Eval(q, db))   for every case          *)
-(* and exports, for every case, Eval, PlanEval(AllFlags) and the smallest  *)
+(* and exports, for every case, Eval, PlanEval(CodeFlags) and the smallest *)
 (* set of deviation rules that explains a difference.  A difference is a   *)
 (* CANDIDATE; the verdict comes from running the real planner (binding).   *)
 (***************************************************************************)
@@ -206,8 +211,11 @@ Eval(q, db) ==
 (***************************************************************************)
 AllFlags == {"where", "emptywhere", "prec", "intersect", "chain3", "drop3", "tagsv2", "attrless_le", "distinct"}
 
-\* parser (model_v2.go): `Head AndOr Tail` is right recursive and has no operator
-\* priorities, so a flat text  x && y || z  becomes  x && (y || z).           [prec]
+\* parser (model_v2.go): `Head AndOr Tail` is right recursive and has no operator priorities;
+\* expression_planner_simple.go analyzeCond walks the chain, joins the runs of &&-ed heads and
+\* ORs the runs, which is DefTree.
+\* [prec] (as found on the pinned tree, repaired since): the chain was turned into a right-nested
+\* tree, so a flat text  x && y || z  became  x && (y || z).
 CodeTree(sh, b, F) ==
   IF "prec" \in F
   THEN CASE sh = "ao"     -> b[1] /\ (b[2] \/ b[3])
@@ -234,11 +242,14 @@ RowTerm(t, s, k) ==
                       /\ NumCmp(t.op, NumOf(RowVal(s, k)), t.cn)
 
 SelSlots(sel) == 1..Arity(sel.sh)
-\* maybeCreateWhere: only terms on attributes / name enter the WHERE list
-AttrTerms(sel) == {sel.t[j] : j \in {x \in SelSlots(sel) : sel.t[x].k # "dur"}}
+\* maybeCreateWhere: the terms OR-ed into the WHERE pre-filter: every term of the selector
+\* (a duration comparison is a condition on every index row of the span).
+\* [where] (as found on the pinned tree, repaired since): only terms on attributes / name.
+WhereTerms(sel, F) == {sel.t[j] : j \in {x \in SelSlots(sel) : "where" \in F => sel.t[x].k # "dur"}}
 \* aggregator(): sum/avg/min/max over an attribute add  key = '<attr>'  to the WHERE list
 AggKey(sel) == IF sel.agg.fn \notin {"none", "count"} /\ sel.agg.attr # "dur" THEN sel.agg.attr ELSE "-"
-WhereEmpty(sel) == AttrTerms(sel) = {} /\ AggKey(sel) = "-"
+\* the WHERE list can only be empty when duration terms are left out of it
+WhereEmpty(sel, F) == WhereTerms(sel, F) = {} /\ AggKey(sel) = "-"
 
 \* init.go: date and timestamp bounds
 InitRow(s, q) == /\ Day(q.from) <= Day(s.ts) /\ Day(s.ts) <= Day(q.to)
@@ -247,20 +258,22 @@ InitRow(s, q) == /\ Day(q.from) <= Day(s.ts) /\ Day(s.ts) <= Day(q.to)
 \* one selector: AttrConditionPlanner + IndexGroupByPlanner + AggregatorPlanner
 \* result [err, P, ms, key]  (key = max(timestamp_ns) of the matched spans)
 MechSelector(sel, q, db, F) ==
-  IF "emptywhere" \in F /\ sel.sh # "empty" /\ WhereEmpty(sel)
+  IF "emptywhere" \in F /\ sel.sh # "empty" /\ WhereEmpty(sel, F)
   THEN \* sql.Or() of an empty list renders `()`:  ... WHERE (<date and time bounds>) and ()
        [err |-> "emptywhere", P |-> {}, ms |-> [ti \in Traces(db) |-> {}], key |-> [ti \in Traces(db) |-> -1]]
   ELSE
   LET bi == [j \in 1..4 |-> IF j <= Arity(sel.sh) THEN BitIdx(sel, j) ELSE -1]
-      attrTerms == AttrTerms(sel)
+      whereTerms == WhereTerms(sel, F)
       aggKey == AggKey(sel)
       \* WHERE ... and (term1 or term2 or ... [or key = aggattr]): rows that do not satisfy any
-      \* attribute term are not read at all                                    [where]
-      whereOn == "where" \in F /\ ~WhereEmpty(sel)
+      \* term of the list are not read at all.  With every term in the list this loses nothing:
+      \* a term that holds for a span holds on one of its rows, and that row is admitted.
+      \* With [where] a span matched through a duration term only has no admitted row.
+      whereOn == ~WhereEmpty(sel, F)
       info == [ti \in Traces(db) |-> [si \in Spans(db, ti) |->
                 LET s == db[ti][si]
                     vis == IF whereOn
-                           THEN {k \in RowKeys(s) : (\E t \in attrTerms : RowTerm(t, s, k)) \/ k = aggKey}
+                           THEN {k \in RowKeys(s) : (\E t \in whereTerms : RowTerm(t, s, k)) \/ k = aggKey}
                            ELSE RowKeys(s)
                     \* GROUP BY trace_id, span_id: groupBitOr(bitShiftLeft(toUInt64(term_i), i) + ...) as a set of bit numbers
                     bits == {bi[j] : j \in {x \in SelSlots(sel) : \E k \in vis : RowTerm(sel.t[x], s, k)}}
@@ -295,11 +308,17 @@ MechAttrless(q, db, F) ==
       msOf(S) == [ti \in Traces(db) |-> IF ti \in S THEN {si \in Spans(db, ti) : InWindow(db[ti][si], q)} ELSE {}]
   IN {[P |-> {ti \in S : msOf(S)[ti] # {}}, ms |-> msOf(S)] : S \in choices}
 
-\* complex_and.go / complex_or.go: every operand becomes rows (trace_id, span_id, max_timestamp_ns)
+\* complex_and.go / complex_or.go: every operand becomes rows (trace_id, span_id, timestamp_ns =
+\* newest matched timestamp of the trace in that operand [, _operand = number of the operand]).
+\* ||: UNION ALL of the rows, GROUP BY trace_id, groupUniqArray(span_id), ORDER BY max(timestamp_ns).
+\* &&: the same, HAVING count(distinct _operand) = number of operands: the traces present in
+\*     every operand, with the spans matched by any of them.
+\* [intersect] (as found on the pinned tree, repaired since): && was the INTERSECT of whole rows
+\*     (trace_id, span_id, max_timestamp_ns).
 ChainRows(r, db) == UNION {{<<ti, si, r.key[ti]>> : si \in r.ms[ti]} : ti \in r.P}
 
 MechCombine(op, r1, r2, db, F) ==
-  LET rows == IF op = "&&" THEN ChainRows(r1, db) \cap ChainRows(r2, db)       \* INTERSECT of whole rows [intersect]
+  LET rows == IF op = "&&" THEN ChainRows(r1, db) \cap ChainRows(r2, db)       \* only used under [intersect]
               ELSE ChainRows(r1, db) \cup ChainRows(r2, db)                     \* UNION ALL + groupUniqArray
       P == IF op = "&&" /\ "intersect" \notin F THEN r1.P \cap r2.P ELSE {x[1] : x \in rows}
       ms == [ti \in Traces(db) |->
@@ -343,23 +362,26 @@ PlanEval(q, db, F) ==
   THEN {MechFinal(r.P, r.ms, K1(db, r.ms), q, db) : r \in MechAttrless(q, db, F)}
   ELSE
   LET r == [i \in 1..n |-> MechSelector(q.sels[i], q, db, F)]
-      \* planner.go planComplex: after `S1 op S2 && S3` the recursion continues on operands()[0], a simple
-      \* selector whose addOp does nothing: S3 is never planned                     [drop3]
+      \* planner.go planComplex builds  S1 || S2 -> ||(S1, S2),  S1 && S2 && S3 -> &&(S1, &&(S2, S3)),
+      \* S1 || S2 && S3 -> ||(S1, &&(S2, S3)),  S1 && S2 || S3 -> ||(&&(S1, S2), S3),
+      \* S1 || S2 || S3 -> ||(||(S1, S2), S3)   (&& binds tighter than ||).
+      \* [drop3] (as found on the pinned tree, repaired since): after `S1 op S2 && S3` the recursion
+      \* continued on operands()[0], a simple selector whose addOp does nothing: S3 was never planned
       dropped == n = 3 /\ q.ops[2] = "&&" /\ "drop3" \in F
       planned == IF dropped THEN {1, 2} ELSE 1..n
       errs == {r[i].err : i \in planned} \ {NoErr}
   IN IF errs # {} THEN {MechError(CHOOSE e \in errs : TRUE, db)}
      ELSE IF n = 1 THEN {MechFinal(r[1].P, r[1].ms, r[1].key, q, db)}
      ELSE IF n = 2 THEN LET c == MechCombine(q.ops[1], r[1], r[2], db, F) IN {MechFinal(c.P, c.ms, c.key, q, db)}
-     ELSE \* planner.go planComplex: with three selectors an operand of the outer
-          \* INTERSECT / UNION ALL is itself a combination, whose rows have no
-          \* `timestamp_ns` column for the appended max(timestamp_ns)         [chain3]
+     ELSE \* with three selectors an operand of the outer combination is itself a combination.
+          \* [chain3] (as found on the pinned tree, repaired since): its rows had no
+          \* `timestamp_ns` column for the appended max(timestamp_ns)
           IF "chain3" \in F THEN {MechError("chain3", db)}
           ELSE IF dropped
                THEN LET c == MechCombine(q.ops[1], r[1], r[2], db, F) IN {MechFinal(c.P, c.ms, c.key, q, db)}
-          ELSE IF q.ops[1] = "||" /\ q.ops[2] = "&&"
+          ELSE IF q.ops[2] = "&&"
                THEN LET c23 == MechCombine("&&", r[2], r[3], db, F)
-                        c == MechCombine("||", r[1], c23, db, F)
+                        c == MechCombine(q.ops[1], r[1], c23, db, F)
                     IN {MechFinal(c.P, c.ms, c.key, q, db)}
                ELSE LET c12 == MechCombine(q.ops[1], r[1], r[2], db, F)
                         c == MechCombine(q.ops[2], c12, r[3], db, F)
@@ -392,7 +414,7 @@ Applicable(q) ==
      \cup (IF Len(q.sels) = 3 /\ q.ops[2] = "&&" THEN {"drop3"} ELSE {})
      \cup (IF \E i \in DOMAIN q.ops : q.ops[i] = "&&" THEN {"intersect"} ELSE {})
      \cup (IF \E sel \in S : sel.sh \in {"ao", "flat4", "flat4b"} THEN {"prec"} ELSE {})
-     \cup (IF \E sel \in S : sel.sh # "empty" /\ WhereEmpty(sel) THEN {"emptywhere"} ELSE {})
+     \cup (IF \E sel \in S : sel.sh # "empty" /\ WhereEmpty(sel, {"where"}) THEN {"emptywhere"} ELSE {})
      \cup (IF \E sel \in S : hasDur(sel) THEN {"where"} ELSE {})
      \cup (IF \E sel \in S : sel.sh = "empty" THEN {"attrless_le", "distinct"} ELSE {})
 
